@@ -2,6 +2,7 @@ import VaxisModel.Lemmas.Input
 import VaxisModel.Lemmas.InputLoop
 import VaxisModel.Lemmas.InputEvents
 import VaxisModel.Lemmas.InputFlow
+import VaxisModel.Lemmas.InputFlowAny
 
 /-!
 # C03 — every terminal report becomes the right event; the input loop survives any input
@@ -13,6 +14,7 @@ and the reply channels).  The facts read from the source on every run are in `Ge
 namespace VaxisModel.Props.C03
 open VaxisModel.Model.Input VaxisModel.Model.InputLoop
 open VaxisModel.Lemmas.Input VaxisModel.Lemmas.InputLoop VaxisModel.Lemmas.InputEvents VaxisModel.Lemmas.InputFlow
+open VaxisModel.Lemmas.InputFlowAny (NotCprKey emitted_spec_any)
 open VaxisModel.Spec.InputEvents (mouseEvent UEvent)
 
 /-! ## Tie to the source: the constants and guards the theorems rely on -/
@@ -254,6 +256,35 @@ theorem input_never_lost (p : Params) (rs : List SReport) (ls : List Label) (s s
   have := emitted_spec p ls rs s s' hin hw hreq hnc hr
   rw [← this, ← visible_ui]
   simp [visible, List.filterMap_append]
+
+/-- **input_never_lost, any requester activity.**  The same for every run in which `CursorPosition`
+is called, drops a stale answer, receives an answer already in flight and times out at any moment
+(labels `cursorCall`, `cursorDrain`, `cursorRecv`, `cursorTimeout` anywhere in the schedule), from
+any state of the request flag — provided no key of the stream is encoded `CSI … R` (the one
+encoding that shares its final byte with the cursor-position report and is, by design, taken for
+the answer while the flag is up; the answers themselves are for the same reason outside the
+report vocabulary — their hand-off is `never_wedges` / `flag_lowered_only_by` and the race
+replay): user input is neither lost nor reordered by queries outstanding or timing out around it. -/
+theorem input_never_lost_any_requester (p : Params) (rs : List SReport) (ls : List Label) (s s' : Sys)
+    (hin : inputSeqs ls = rs.map SReport.seq) (hw : ∀ r ∈ rs, r.Wf) (hk : ∀ r ∈ rs, NotCprKey r)
+    (hnb : nbOK s.pend) (hr : run p s ls = some s') :
+    (visible (flow s')).filter uiU =
+      (visible (flow s)).filter uiU ++ (VaxisModel.Spec.InputEvents.specEvents s.vs.pastePending (rs.map SReport.spec)).filter uiU := by
+  rw [← visible_ui, ← visible_ui, flow_preserved p ls s s' hr hnb]
+  have := emitted_spec_any p ls rs s s' hin hw hk hr
+  rw [← this, ← visible_ui]
+  simp [visible, List.filterMap_append]
+
+/-- Non-vacuity: a key and a mouse report arrive while a cursor-position query is outstanding and
+an earlier answer is still being handed over; the query times out, a second one is made; the run
+exists, both events are delivered in order. -/
+example :
+    (match run { qcap := 2, kinds := Kinds.ofGen, b64 := fun _ => none }
+        { pend := [.sendCursorPos 3 7], cursorWaiting := true, vs := { reqCursorPos := false } }
+        [.step, .cursorRecv, .cursorDrain, .cursorCall, .input (SReport.seq (.key (.print [97] 1))), .step, .consume,
+         .input (SReport.seq (.mouse 0 3 4 false)), .cursorTimeout, .step, .cursorDrain, .cursorCall, .consume] with
+     | some s => s.delivered.length == 2 && s.cursorGot == [(3, 7)] && s.vs.reqCursorPos
+     | none => false) = true := by decide
 
 /-- Non-vacuity: a paste bracket, a key, a DA1 reply, a mouse press through a queue of capacity 1
 with the application consuming in between; the run exists. -/
